@@ -154,7 +154,7 @@ def tlc_error_excerpt(out, n=40):
     return "\n".join(lines[-n:])
 
 
-def eval_cases(scratch, cases, nshards=NCPU, timeout=900, module="EvalCases", extra_const=""):
+def eval_cases(scratch, cases, nshards=NCPU, timeout=900, module="EvalCases", extra_const="", emit=None):
     """Shard `cases` (list of dicts) over JVMs running spec/EvalCases.tla;
     returns (list of expectation dicts, summed stats)."""
     nshards = max(1, min(nshards, len(cases)))
@@ -168,7 +168,7 @@ def eval_cases(scratch, cases, nshards=NCPU, timeout=900, module="EvalCases", ex
             for c in shards[k]:
                 f.write(json.dumps(c, separators=(",", ":")) + "\n")
         cfg = ("SPECIFICATION Spec\nINVARIANT %s\nCONSTANT CaseFile = \"cases.ndjson\"\n%s\nCHECK_DEADLOCK FALSE\n"
-               % ("EmitLit" if module == "EvalLit" else "Emit", extra_const))
+               % (emit or ("EmitLit" if module == "EvalLit" else "Emit"), extra_const))
         out, st = run_tlc(d, module, cfg, workers=1, timeout=timeout, heap="2g")
         if not st["ok"]:
             raise Undecided("TLC failed on the evaluator spec:\n" + tlc_error_excerpt(out))
